@@ -123,6 +123,10 @@ def confirm_factory(ctx):
 
 
 def replay(ctx, payload):
+    if payload["payload"].get("family") == "drv-lines":
+        from props import mcat
+        from vlib.engine import Failure
+        return mcat.confirm_lines(ctx, Failure("", "", payload["payload"]))
     ok, new, info = rerun(ctx, payload["payload"]["record"])
     print(json.dumps({"results": new["res"][:12], "info": info})[:3000])
     return ok
@@ -201,4 +205,8 @@ def run(ctx):
                 "res": [x["kind"] for x in r["res"]]} for r in recs[:4]])
     if fails:
         ctx.log("rejected experiments by class:", dict(Counter(f.signature for f in fails)))
-    ctx.report(fails, confirm_factory(ctx))
+    # the real process-backed ports: out.go writes the lines, in.go reads them (stand-in helper pair in between)
+    from props import mcat
+    fails += mcat.run_lines(ctx)
+    cf = confirm_factory(ctx)
+    ctx.report(fails, lambda f: mcat.confirm_lines(ctx, f) if f.payload.get("family") == "drv-lines" else cf(f))
